@@ -143,7 +143,8 @@ def run(corrupt=None):
     workdir = env.scratch("c20_files")
     specs = [("2chains_3entries", 3, 2, 3, False), ("3chains_2entries_clustered", 3, 3, 2, True)]
     if thorough:
-        specs += [("1chain_6entries", 4, 1, 6, False), ("1chain_1entry", 2, 1, 1, False), ("3chains_6entries", 3, 3, 6, False), ("2chains_4entries_clustered", 4, 2, 4, True)]
+        specs += [("1chain_6entries", 4, 1, 6, False), ("1chain_1entry", 2, 1, 1, False), ("3chains_6entries", 3, 3, 6, False), ("2chains_4entries_clustered", 4, 2, 4, True),
+                  ("3chains_40entries", 5, 3, 40, False), ("1chain_25entries_clustered", 6, 1, 25, True)]
     for label, n, chains, entries, clustered in specs:
         p = os.path.join(workdir, label + ".pkl.gz")
         size = make_trace(p, n, chains, entries, ck.seed + len(label), clustered)
